@@ -395,3 +395,338 @@ func c07FalseIsEOF(c *Ctx, r *Report, rule string) {
 		r.undecided(rule, "zlexer.Next", c.pos(fn.Pos()), "no (token, false) return found")
 	}
 }
+
+// c11CopyAfterDefaults: the TSIG that goes on the wire is a copy of the one that was digested: the copy is taken
+// after the signer's defaults (time signed, fudge) have been filled in, i.e. no field of the digested TSIG is stored
+// after the copy was made.
+func c11CopyAfterDefaults(c *Ctx, r *Report, rule string) {
+	r.rule(rule, 1, "TsigGenerateWithProvider copies the stub TSIG for the wire after the signer's defaults were stored into it")
+	fn := c.ssaFunc("TsigGenerateWithProvider")
+	if fn == nil {
+		r.cerr(rule, "TsigGenerateWithProvider", "function not found")
+		return
+	}
+	r.fn("TsigGenerateWithProvider")
+	n := 0
+	allInstrs(fn, func(in ssa.Instruction) {
+		st, ok := in.(*ssa.Store)
+		if !ok {
+			return
+		}
+		if nm := derefNamed(st.Val.Type()); nm == nil || nm.Obj().Name() != "TSIG" {
+			return
+		}
+		if _, isStruct := st.Val.Type().Underlying().(*types.Struct); !isStruct {
+			return
+		}
+		ld, ok := st.Val.(*ssa.UnOp)
+		if !ok {
+			return
+		}
+		src := ld.X // the digested TSIG
+		n++
+		after := reach(st.Block(), nil, nil)
+		var late []string
+		allInstrs(fn, func(x ssa.Instruction) {
+			s2, ok := x.(*ssa.Store)
+			if !ok {
+				return
+			}
+			fa, ok := s2.Addr.(*ssa.FieldAddr)
+			if !ok || fa.X != src {
+				return
+			}
+			if (s2.Block() == st.Block() && instrIndex(s2) > instrIndex(st)) || (s2.Block() != st.Block() && after[s2.Block()]) {
+				late = append(late, fmt.Sprintf("%s (%s)", c.pos(s2.Pos()), fieldNameOf(fa)))
+			}
+		})
+		sort.Strings(late)
+		r.check(len(late) == 0, rule, fmt.Sprintf("TsigGenerateWithProvider:wire-copy#%d", n), c.pos(st.Pos()), "after the defaults", "fields of the digested TSIG are stored after the copy for the wire was taken (%s): the MAC covers the defaulted value while the message carries the stub's (fudge 0 on the wire, 300 in the digest), so the message does not verify", strings.Join(late, ", "))
+	})
+	if n == 0 {
+		r.undecided(rule, "TsigGenerateWithProvider", c.pos(fn.Pos()), "no whole copy of the TSIG found")
+	}
+}
+
+// sideStructOffsets: the hand-written packers of the digest structures thread the offset through every field: the
+// offset a field codec returns is used (by the next codec or the return), never discarded.
+func sideStructOffsets(c *Ctx, r *Report, rule, consequence string) {
+	r.rule(rule, 5, "in packSigWire / packKeyWire / packTsigWire / packMacWire / packTimerWire the offset returned by every field codec is used")
+	var names []string
+	for _, p := range sideStructs {
+		names = append(names, p)
+	}
+	sort.Strings(names)
+	for _, name := range names {
+		fn := c.ssaFunc(name)
+		if fn == nil {
+			r.cerr(rule, name, "function not found")
+			continue
+		}
+		r.fn(name)
+		var bad []string
+		allInstrs(fn, func(in ssa.Instruction) {
+			call, ok := in.(*ssa.Call)
+			if !ok {
+				return
+			}
+			g := call.Call.StaticCallee()
+			if g == nil || g.Signature.Results().Len() != 2 {
+				return
+			}
+			if bt, ok := g.Signature.Results().At(0).Type().Underlying().(*types.Basic); !ok || bt.Kind() != types.Int {
+				return
+			}
+			used := false
+			for _, ref := range *call.Referrers() {
+				if ex, ok := ref.(*ssa.Extract); ok && ex.Index == 0 {
+					for _, r2 := range *ex.Referrers() {
+						if _, isDbg := r2.(*ssa.DebugRef); !isDbg {
+							used = true
+						}
+					}
+				}
+			}
+			if !used {
+				bad = append(bad, fmt.Sprintf("%s: the offset returned by %s is dropped", c.pos(call.Pos()), g.Name()))
+			}
+		})
+		r.check(len(bad) == 0, rule, name, c.pos(fn.Pos()), "offsets threaded", "%s: the function returns an offset that stops short of that field, so %s", strings.Join(bad, "; "), consequence)
+	}
+}
+
+// c12NoReleaseAfterServe: a handler may keep its ResponseWriter and write after ServeDNS has returned (answering
+// from its own goroutine); nothing the writer refers to is handed to a buffer pool when the request function ends.
+func c12NoReleaseAfterServe(c *Ctx, r *Report, rule string) {
+	r.rule(rule, 2, "after serveDNS returns, serveUDPPacket / serveTCPConn pass nothing the response writer refers to to a function that reaches sync.Pool.Put")
+	putters := map[*ssa.Function]bool{}
+	// functions that (transitively, statically) call (sync.Pool).Put
+	changed := true
+	fns := c.allFuncs()
+	for changed {
+		changed = false
+		for _, f := range fns {
+			for _, sub := range withAnon(f) {
+				if putters[sub] {
+					continue
+				}
+				allInstrs(sub, func(in ssa.Instruction) {
+					ci, ok := in.(ssa.CallInstruction)
+					if !ok || putters[sub] {
+						return
+					}
+					cn := calleeNameSSA(ci.Common())
+					if cn == "(sync.Pool).Put" || cn == "(*sync.Pool).Put" {
+						putters[sub] = true
+						changed = true
+						return
+					}
+					if g := ci.Common().StaticCallee(); g != nil && putters[g] {
+						putters[sub] = true
+						changed = true
+					}
+				})
+			}
+		}
+	}
+	for _, name := range []string{"Server.serveUDPPacket", "Server.serveTCPConn"} {
+		fn := c.ssaFunc(name)
+		if fn == nil {
+			r.cerr(rule, name, "function not found")
+			continue
+		}
+		r.fn(name)
+		var w *ssa.Alloc
+		allInstrs(fn, func(in ssa.Instruction) {
+			if al, ok := in.(*ssa.Alloc); ok {
+				if nm := derefNamed(al.Type()); nm != nil && nm.Obj().Name() == "response" {
+					w = al
+				}
+			}
+		})
+		if w == nil {
+			r.undecided(rule, name, c.pos(fn.Pos()), "no response writer allocated")
+			continue
+		}
+		// what the writer refers to: values stored into its fields
+		held := map[ssa.Value]bool{w: true}
+		allInstrs(fn, func(in ssa.Instruction) {
+			if st, ok := in.(*ssa.Store); ok {
+				if fa, ok := st.Addr.(*ssa.FieldAddr); ok && fa.X == ssa.Value(w) {
+					held[st.Val] = true
+					if mi, ok := st.Val.(*ssa.MakeInterface); ok {
+						held[mi.X] = true
+					}
+				}
+			}
+		})
+		var bad []string
+		for _, sv := range callsIn(fn, "(Server).serveDNS") {
+			start := sv.(ssa.Instruction)
+			after := reach(start.Block(), nil, nil)
+			allInstrs(fn, func(x ssa.Instruction) {
+				ci, ok := x.(ssa.CallInstruction)
+				if !ok || x == start {
+					return
+				}
+				if !((x.Block() == start.Block() && instrIndex(x) > instrIndex(start)) || (x.Block() != start.Block() && after[x.Block()])) {
+					return
+				}
+				g := ci.Common().StaticCallee()
+				if g == nil || !putters[g] {
+					return
+				}
+				for _, a := range ci.Common().Args {
+					for o := range sliceOf(a) {
+						if held[o] {
+							bad = append(bad, fmt.Sprintf("%s: %s is given %s", c.pos(x.Pos()), g.Name(), describeValue(o)))
+						}
+					}
+				}
+			})
+		}
+		r.check(len(bad) == 0, rule, name, c.pos(fn.Pos()), "nothing released", "%s, which the response writer still refers to, and that function returns memory to a sync.Pool: a handler that writes its reply after ServeDNS returned (from its own goroutine) sends it with another request's session data (wrong source address: the client never receives it)", strings.Join(uniqStrings(bad), "; "))
+	}
+}
+
+// c16CopyToFresh: the sections of a CopyTo destination are built in memory allocated by that call; reusing the
+// destination's old arrays shares them with whatever else points at them (the source, when the destination started
+// as a shallow copy of it).
+func c16CopyToFresh(c *Ctx, r *Report, rule string) {
+	r.rule(rule, 3, "Msg.CopyTo builds Answer, Ns and Extra of the destination in arrays it allocates itself")
+	fn := c.ssaFunc("Msg.CopyTo")
+	if fn == nil || len(fn.Params) < 2 {
+		r.cerr(rule, "Msg.CopyTo", "function not found")
+		return
+	}
+	r.fn("Msg.CopyTo")
+	dst := fn.Params[1]
+	for _, field := range []string{"Answer", "Ns", "Extra"} {
+		var bad []string
+		n := 0
+		for _, st := range storesToField(fn, "Msg", field) {
+			fa, ok := st.Addr.(*ssa.FieldAddr)
+			if !ok || fa.X != ssa.Value(dst) {
+				continue
+			}
+			n++
+			// the stored slice: where can its backing array come from?
+			fresh, old := false, false
+			var walk func(v ssa.Value, d int)
+			seen := map[ssa.Value]bool{}
+			walk = func(v ssa.Value, d int) {
+				if d > 8 || seen[v] {
+					return
+				}
+				seen[v] = true
+				switch t := v.(type) {
+				case *ssa.MakeSlice:
+					fresh = true
+				case *ssa.Slice:
+					walk(t.X, d+1)
+				case *ssa.Phi:
+					for _, e := range t.Edges {
+						walk(e, d+1)
+					}
+				case *ssa.Call:
+					if calleeNameSSA(&t.Call) == "builtin.append" {
+						walk(t.Call.Args[0], d+1)
+					}
+				case *ssa.UnOp:
+					if lf, ok := t.X.(*ssa.FieldAddr); ok && lf.X == ssa.Value(dst) {
+						// a load of the destination's own field: fine when that field was assigned from fresh memory
+						// earlier in this call, i.e. when a store to it dominates the load
+						dominated := false
+						for _, s2 := range storesToField(fn, "Msg", fieldNameOf(lf)) {
+							f2, ok := s2.Addr.(*ssa.FieldAddr)
+							if ok && f2.X == ssa.Value(dst) && s2 != st && (s2.Block().Dominates(t.Block()) && s2.Block() != t.Block() || (s2.Block() == t.Block() && instrIndex(s2) < instrIndex(t))) {
+								dominated = true
+								walk(s2.Val, d+1)
+							}
+						}
+						if !dominated {
+							old = true
+						}
+					}
+				}
+			}
+			walk(st.Val, 0)
+			if old || !fresh {
+				bad = append(bad, c.pos(st.Pos()))
+			}
+		}
+		if n == 0 {
+			bad = append(bad, "never assigned")
+		}
+		sort.Strings(bad)
+		r.check(len(bad) == 0, rule, "Msg.CopyTo:"+field, c.pos(fn.Pos()), "freshly allocated", "the destination's %s is built in the array the destination already had (%s): after `d := *m; m.CopyTo(&d)` source and copy share it and the copy's records overwrite the source's", field, strings.Join(uniqStrings(bad), ", "))
+	}
+}
+
+// c18NoSizeRefusal: SIG.Sign sizes its buffer from the uncompressed length (so that PackBuffer does not reallocate)
+// but must not refuse a message because of that length: what counts is the packed size, which PackBuffer reports.
+func c18NoSizeRefusal(c *Ctx, r *Report, rule string) {
+	r.rule(rule, 1, "SIG.Sign has no error exit conditioned on the length estimate made before packing")
+	fn := c.ssaFunc("SIG.Sign")
+	if fn == nil {
+		r.cerr(rule, "SIG.Sign", "function not found")
+		return
+	}
+	r.fn("SIG.Sign")
+	isEstimate := func(v ssa.Value) bool {
+		call, ok := v.(*ssa.Call)
+		if !ok {
+			return false
+		}
+		cn := calleeNameSSA(&call.Call)
+		return cn == "msgLenWithCompressionMap" || cn == "Len" || strings.HasSuffix(cn, "Msg).Len")
+	}
+	var packBlk *ssa.BasicBlock
+	for _, ci := range callsIn(fn, "(Msg).PackBuffer") {
+		packBlk = ci.(ssa.Instruction).Block()
+	}
+	if packBlk == nil {
+		r.undecided(rule, "SIG.Sign", c.pos(fn.Pos()), "no PackBuffer call found")
+		return
+	}
+	var bad []string
+	for _, b := range fn.Blocks {
+		ret, ok := b.Instrs[len(b.Instrs)-1].(*ssa.Return)
+		if !ok || len(ret.Results) != 2 {
+			continue
+		}
+		if k, isK := ret.Results[1].(*ssa.Const); isK && k.Value == nil {
+			continue
+		}
+		if packBlk.Dominates(b) {
+			continue // after packing: the packed size is known
+		}
+		for _, f := range factsAt(fn, b) {
+			bin, ok := f.Atom.(*ssa.BinOp)
+			if !ok {
+				continue
+			}
+			switch bin.Op {
+			case token.LSS, token.LEQ, token.GTR, token.GEQ:
+			default:
+				continue
+			}
+			if anyIn(sliceOf(bin.X), isEstimate) || anyIn(sliceOf(bin.Y), isEstimate) {
+				bad = append(bad, fmt.Sprintf("%s (on %v = %v)", c.pos(ret.Pos()), f.Atom, f.Holds))
+			}
+		}
+	}
+	sort.Strings(bad)
+	r.check(len(bad) == 0, rule, "SIG.Sign", c.pos(fn.Pos()), "no length-based refusal", "Sign returns an error at %s because of the uncompressed length estimate: a message that compresses below the limit (21 KB on the wire, 66 KB uncompressed) is refused although it can be packed, signed and verified", strings.Join(uniqStrings(bad), ", "))
+}
+
+// c08LenForm: the C08.R1.len-form rule on its own (for borrowing).
+func c08LenForm(c *Ctx, r *Report) {
+	r.rule("C08.R1.len-form", 81, "len adds the kind's length term for every wire field")
+	for _, t := range c.rrTypes() {
+		if t.Name == "PrivateRR" {
+			continue
+		}
+		c.checkLenForm(r, "C08.R1.len-form", t)
+	}
+}
